@@ -14,6 +14,7 @@ to pass (vacuity guard, not a property claim).
 """
 from vverif import lockstep as ls
 from vverif import httpref
+from vverif.lsutil import RetryWorld, written_out_samples
 from vverif.core import Result, Violation, HarnessError
 
 LEVEL = 'exploration'
@@ -156,7 +157,7 @@ def split_pieces(data, L, delivery):
 
 def make_world_for(ctx, shard, cfg):
     LQ, LP = CONFIGS[cfg]
-    w = ls.World(ctx, 'w%d' % shard, ls.port_base_for_check(ctx.pid, shard),
+    w = RetryWorld(ctx, 'w%d' % shard, ls.port_base_for_check(ctx.pid, shard),
                  conf='request_header_max_size %d bytes\nreply_header_max_size %d bytes\n' % (LQ, LP))
     w.cfg = cfg
     return w
@@ -405,7 +406,20 @@ def run(ctx):
     vio = [Violation(k, what, {'case': c}) for k, what, c in r['violations']]
     obs = ['squid problem during %s: %s' % (k, what[:300]) for k, what, c in r['crashes']]
     vio += [Violation('crash:' + k, 'squid crashed/asserted during case %r: %s' % (c, what), {'case': c}) for k, what, c in r['crashes'] if c]
-    samples = [s for s in r['samples'] if s.get('case')]
+    want = [('req', 'url', +1, 'whole'), ('req', 'field', -2, 'whole'), ('req', 'unterminated-head', +1, 'bytewise-around'), ('req', 'second', +2, 'split@L'),
+            ('resp', 'field', +1, 'whole'), ('resp', 'many', -2, 'split@L'), ('resp', 'reason', +3, 'split@L-1'), ('resp', 'unterminated', +2, 'whole')]
+    picked = []
+    for d, shape, delta, dl in want:
+        for c in cases:
+            if c and (c['cfg'], c['dir'], c['shape'], c['size'] - c['limit'], c['delivery'], c['body']) == ('A', d, shape, delta, dl, False):
+                picked.append(c)
+                break
+
+    def describe(c, rr):
+        t = rr['transcript']
+        o, cl = (t.split(b'\nC:', 1) + [b''])[:2] if t else (b'', b'')
+        return {'origin_received_bytes': len(o) - 2 if o.startswith(b'O:') else 0, 'client_got': repr(cl[:40])}
+    samples = written_out_samples(ctx, make_world_for(ctx, 0, 'A'), run_case, picked, describe) or [s for s in r['samples'] if s.get('case')]
     cov = {'evaluations': evaluations, 'distinct_nontrivial': passed + blocked + flagged, 'rule': RULE, 'samples': samples,
            'outcome_classes': oc, 'exhaustive': not r['deadline_hit'] and evaluations == total, 'kicks': r['kicks'],
            'determinism_replays': r['replays'], 'cases_total': total, 'skipped_size_too_small_for_shape': skips,
